@@ -183,6 +183,24 @@ def r4(cx):
             again = [t for t in hs if t.bb in cfg.after(te)]
             okk = not again
             detail = "after fill_buf() reported end of input the loop can call handle() again"
+        elif c.kind == "call" and c.term.callee.name in ("map_or", "is_ok_and", "is_err", "is_ok") and c.term.args and from_fill_buf(c.term.args[0]):
+            # combinator spellings of `Err(_) | Ok([])`: fill_buf().map_or(true, |b| b.is_empty()), !fill_buf().is_ok_and(|b| !b.is_empty())
+            t = c.term
+            clos = [x for x in w.unit.bodies if x.promoted is None and x.parent in ([w.path] + [p for p, _ in getattr(w, "inlined", [])])]
+            used = set()
+            for a in t.args:
+                if a.place is not None:
+                    for k, d in du.value_defs(a.place.l):
+                        if k == "stmt" and d.rv == "agg" and isinstance(d.agg, dict) and d.agg.get("closure"): used.add(d.agg["closure"])
+            tests_empty = any(x.path in used and (x.calls("=is_empty") or any(st.kind == "assign" and st.rv == "un" and st.op == "PtrMetadata" for st in x.stmts())) for x in clos)
+            te, fe = bool_edges(b.term, c)
+            eof_edge = None
+            if t.callee.name == "map_or" and t.args[1].is_const and t.args[1].cint() == 1 and tests_empty: eof_edge = te
+            elif t.callee.name == "is_ok_and" and tests_empty: eof_edge = fe
+            if eof_edge is not None:
+                again = [x for x in hs if x.bb in cfg.after(eof_edge)]
+                okk = not again
+                detail = "after fill_buf() reported end of input the loop can call handle() again"
     # fill_buf error leaves as well
     cx.check(okk, "C13.R4", "varlink:worker:eof-ends-the-job", "%s %s" % (fb[0].sp, w.path), detail, note_ok="Ok([]) -> break (and Err(_) -> break)")
 
